@@ -404,6 +404,10 @@ def seqRun (le : Bool) : List COp → Q → List Obs × Q
 def spec (le : Bool) (batches : List Batch) (prog : List COp) : List Obs :=
   (seqRun le prog (batches.flatten, false, false)).1
 
+/-- Whether the reference reader ends closed (some Read saw EOF, or Close was called). -/
+def specClosed (le : Bool) (batches : List Batch) (prog : List COp) : Bool :=
+  (seqRun le prog (batches.flatten, false, false)).2.2.2
+
 /-! ## One fixed fair schedule (used by the driver; `Gp.C20` shows the result does not depend
     on the schedule): the consumer moves whenever it can, otherwise the assembler. -/
 
